@@ -516,11 +516,15 @@ pub struct SweepCase {
     /// join bias of the 72-channel plans: (sub-band, retries)
     #[serde(default)]
     pub bias: Option<(u8, usize)>,
+    /// data rate the application configured before the join (None = default)
+    #[serde(default)]
+    pub dr: Option<u8>,
 }
 
 fn eval_sweep(c: &SweepCase) -> Vec<(String, String)> {
     let mut dcfg = DevCfg::otaa(&c.region);
     dcfg.bias = c.bias;
+    dcfg.dr = c.dr;
     let mut s = Sys::new(&c.front, &dcfg);
     let mut out = vec![];
     if (1..=3).contains(&c.pre) {
@@ -602,11 +606,11 @@ pub fn run(tier: Tier, replay: Option<&str>) {
                         2 => (0x8001, 0x010203, 0x000013),
                         _ => (1, 1, 0x800000),
                     };
-                    cases.push(SweepCase { front: front.into(), region: region.to_string(), pre, spec: sp.clone(), nonce, jn, na, rx2: i % 3 == 0, bias: None });
+                    cases.push(SweepCase { front: front.into(), region: region.to_string(), pre, spec: sp.clone(), nonce, jn, na, rx2: i % 3 == 0, bias: None, dr: None });
                     // the 72-channel plans under a join bias: the accept's channel mask may disable the sub-band joined on
                     if rr::is_fixed(region) && pre <= 1 && sp.cflist.as_ref().map(|c| c[15] == 1).unwrap_or(i % 16 == 0) {
                         for bias in [(2u8, 1usize), (2, 8), (1, 1), (8, 2)] {
-                            cases.push(SweepCase { front: front.into(), region: region.to_string(), pre, spec: sp.clone(), nonce, jn, na, rx2: i % 3 == 0, bias: Some(bias) });
+                            cases.push(SweepCase { front: front.into(), region: region.to_string(), pre, spec: sp.clone(), nonce, jn, na, rx2: i % 3 == 0, bias: Some(bias), dr: None });
                         }
                     }
                 }
@@ -619,6 +623,41 @@ pub fn run(tier: Tier, replay: Option<&str>) {
                 sweep.fetch_add(1, Ordering::Relaxed);
             });
         }
+    }
+    // ---- (A2) every DLSettings octet while the application has configured each uplink data rate of the region: the
+    // accept's settings are valid or not for the region, whatever rate the device happens to use (regions whose RX1
+    // table reaches unimplemented rates - RX1DROffset 6 / 7 in IN865 and AS923 - in both tiers)
+    {
+        let rs: Vec<&str> = if th { REGIONS.to_vec() } else { vec!["IN865", "AS923_1", "EU868"] };
+        let mut cases = vec![];
+        for region in rs {
+            // (uplink data rates the crate implements: an application that selects another one is outside this property)
+            let top = match region {
+                "US915" => 4u8,
+                "AU915" => 6,
+                _ => 5,
+            };
+            for dr in (0..=top).filter(|d| rr::dr(region, *d).is_some()) {
+                for dl in 0..=255u8 {
+                    if !th && dl & 0x0F != rr::rx2_default(region).1 && dl & 0x8F != 0x02 {
+                        continue;
+                    }
+                    for front in ["nb", "async"] {
+                        if front == "async" && dl >> 4 < 6 {
+                            continue;
+                        }
+                        cases.push(SweepCase { front: front.into(), region: region.to_string(), pre: 0, spec: JaSpec { dl_settings: dl, rx_delay: 1, cflist: None }, nonce: 3, jn: 5, na: 0x13, rx2: dl & 0x10 != 0, bias: None, dr: Some(dr) });
+                    }
+                }
+            }
+        }
+        cases.par_iter().for_each(|c| {
+            for (sig, what) in eval_sweep(c) {
+                ctx.violation(sig, what, serde_json::to_value(c).unwrap(), 1);
+            }
+            ctx.tick(1);
+            sweep.fetch_add(1, Ordering::Relaxed);
+        });
     }
     // ---- (B) histories
     let depth = if crate::ctx::deep() { 7 } else if th { 5 } else { 4 };
@@ -680,12 +719,12 @@ pub fn run(tier: Tier, replay: Option<&str>) {
         "transitions": transitions + sweep.load(Ordering::Relaxed),
         "traces_validated_against_impl": transitions + sweep.load(Ordering::Relaxed),
         "samples": [
-            serde_json::to_value(SweepCase { front: "nb".into(), region: "EU868".into(), pre: 2, spec: JaSpec { dl_settings: 0x5F, rx_delay: 0, cflist: None }, nonce: 0xFFFF, jn: 0xFFFFFF, na: 0x13, rx2: true, bias: None }).unwrap(),
+            serde_json::to_value(SweepCase { front: "nb".into(), region: "EU868".into(), pre: 2, spec: JaSpec { dl_settings: 0x5F, rx_delay: 0, cflist: None }, nonce: 0xFFFF, jn: 0xFFFFFF, na: 0x13, rx2: true, bias: None, dr: None }).unwrap(),
             {"cfg": serde_json::to_value(&runs[0]).unwrap(), "history": [serde_json::to_value(JEv::Join { outcome: 3, nonce: 0, spec: 0 }).unwrap(), serde_json::to_value(JEv::Join { outcome: 2, nonce: 0xFFFF, spec: 1 }).unwrap(), serde_json::to_value(JEv::Up).unwrap()]},
         ],
         "evaluations": ctx.evals(),
         "distinct_nontrivial": states + sweep.load(Ordering::Relaxed),
-        "rule": "(A) sweep: every JoinAccept content (all 256 DLSettings x RxDelay x CFList variants incl. RFU types, zero / out-of-band frequencies and masks; JoinNonce/NetID/DevAddr/DevNonce boundary sets) delivered in RX1 or RX2 to a fresh device, after a failed attempt, and as a re-join from a joined state with non-default settings / with CFList channels in place / after a DlChannelReq on a CFList channel, followed by the first uplink; (B) BFS over histories of up to 4 join attempts (none / valid RX1 / valid RX2 / bad MIC / wrong key / wrong length / replay of an earlier accept / data frame / bad-then-valid) interleaved with uplinks and with the application switching to a second credential set or to another AppKey for the same identifiers, on nb, async and async+Class C; (C) 72-channel plans: for every k in 0..=72, k unanswered attempts, a join accepted with a CFList, 72 unanswered re-join attempts",
+        "rule": "(A2) every DLSettings octet (quick: default / DR2 RX2 data rate x every RX1DROffset) with the application having configured each uplink data rate of the region beforehand (IN865, AS923-1, EU868; thorough: all regions), both front-ends; (A) sweep: every JoinAccept content (all 256 DLSettings x RxDelay x CFList variants incl. RFU types, zero / out-of-band frequencies and masks; JoinNonce/NetID/DevAddr/DevNonce boundary sets) delivered in RX1 or RX2 to a fresh device, after a failed attempt, and as a re-join from a joined state with non-default settings / with CFList channels in place / after a DlChannelReq on a CFList channel, followed by the first uplink; (B) BFS over histories of up to 4 join attempts (none / valid RX1 / valid RX2 / bad MIC / wrong key / wrong length / replay of an earlier accept / data frame / bad-then-valid) interleaved with uplinks and with the application switching to a second credential set or to another AppKey for the same identifiers, on nb, async and async+Class C; (C) 72-channel plans: for every k in 0..=72, k unanswered attempts, a join accepted with a CFList, 72 unanswered re-join attempts",
         "sweep_cases": sweep.load(Ordering::Relaxed),
         "bfs_depth": depth,
         "outcomes": outcomes,
